@@ -13,6 +13,7 @@ pub mod c07;
 pub mod c08;
 pub mod c09;
 pub mod c11;
+pub mod c12;
 pub mod c15;
 pub mod c16;
 pub mod c17;
@@ -34,6 +35,7 @@ pub const TABLE: &[(&str, RunFn, ReplayFn)] = &[
     ("C08", c08::run, c08::replay),
     ("C09", c09::run, c09::replay),
     ("C11", c11::run, c11::replay),
+    ("C12", c12::run, c12::replay),
     ("C15", c15::run, c15::replay),
     ("C16", c16::run, c16::replay),
     ("C17", c17::run, c17::replay),
